@@ -49,7 +49,7 @@ def discover(g):
         last = s[-1]["v"] if s and s[-1]["k"] == "ident" and s[-1]["v"] in rules else None
         for o in opts:
             so = _seq(g, o)
-            if so and so[0] == {"k": "str", "v": "target:"}:
+            if so and (so[0] == {"k": "str", "v": "target:"} or (len(so) > 1 and so[0] == {"k": "str", "v": "target"} and so[1] == {"k": "str", "v": ":"})):
                 R["target_arg"] = o
             elif so and so[-1] == {"k": "str", "v": ";"}:
                 R["kvp_args"] = o
